@@ -6,7 +6,7 @@ PROPS = {
     "C17": {
         "level": "exploration",
         "technique": 'runtime monitoring: RFC 1982 serial arithmetic compared with a wide-integer model, exhaustive on blocks around the wrap points and random elsewhere, in debug and release builds',
-        "features": ["hooks"],
+        "features": ["crypto", "hooks"],
         "stages": [
             {"mode": "native", "tiers": ["quick"]},
             {"mode": "release", "tiers": ["thorough"]},
